@@ -50,6 +50,7 @@ func (f FileSpec) driver(pkgName, caseDir string) string {
 	w(`	"io"`)
 	w(`	"net"`)
 	w(`	"testing"`)
+	w(`	"time"`)
 	w(`	"storj.io/drpc"`)
 	w(`	"storj.io/drpc/drpcconn"`)
 	w(`	"storj.io/drpc/drpcmux"`)
@@ -132,6 +133,8 @@ func (f FileSpec) driver(pkgName, caseDir string) string {
 	w("	srv := drpcserver.New(mux)")
 	w("	go srv.ServeOne(ctx, c2)")
 	w("	conn := &recConn{Conn: drpcconn.New(c1)}")
+	w("	callCtx := func() context.Context { c, cancel := context.WithTimeout(ctx, 15*time.Second); _ = cancel; return c }")
+	w("	_ = callCtx")
 	w("	defer conn.Close()")
 	for si, s := range f.Services {
 		g := GoCamelCase(s.Name)
@@ -145,14 +148,27 @@ func (f FileSpec) driver(pkgName, caseDir string) string {
 			w("		conn.rpcs = nil")
 			switch {
 			case !m.CS && !m.SS:
+				if f.kind(m.In) == 0 {
+					w("		{")
+					w("			_, _ = cli.%s(context.Background(), &In{S: \"\\xff\"})", mg)
+					w("			conn.rpcs = nil")
+					w("		}")
+				}
 				w("		{")
-				w("			out, err := cli.%s(ctx, %s)", mg, mk(m.In, `[]byte("ping")`))
+				w("			out, err := cli.%s(callCtx(), %s)", mg, mk(m.In, `[]byte("ping")`))
 				w("			if err != nil { t.Fatalf(\"%s.%s: %%v\", err) }", g, mg)
 				w("			if !bytes.Equal(%s, []byte(%q)) { t.Fatalf(\"%s.%s wrong response %%q\", %s) }", get(m.Out, "out"), tag+"ping", g, mg, get(m.Out, "out"))
 				w("		}")
 			case !m.CS && m.SS:
+				if f.kind(m.In) == 0 {
+					// a request the encoding refuses: the stub fails, and the call that follows must still go through
+					w("		{")
+					w("			if st, err := cli.%s(context.Background(), &In{S: \"\\xff\"}); err == nil { _ = st.Close() }", mg)
+					w("			conn.rpcs = nil")
+					w("		}")
+				}
 				w("		{")
-				w("			st, err := cli.%s(ctx, %s)", mg, mk(m.In, `[]byte("ping")`))
+				w("			st, err := cli.%s(callCtx(), %s)", mg, mk(m.In, `[]byte("ping")`))
 				w("			if err != nil { t.Fatalf(\"%s.%s: %%v\", err) }", g, mg)
 				w("			for i := 0; i < 2; i++ {")
 				w("				out, err := st.Recv()")
